@@ -82,17 +82,13 @@ Section Carrier.
   Definition imzero (a : img) : img := imap (fun _ => zero) a.
   Definition immask (b : bool) (a : img) : img := if b then a else imzero a.
 
-  (* ifft(fft(x).real).real along the last axis: g[j] = (f[j] + f[(-j) mod m]) / 2 *)
-  Definition fourier_row (r : list A) : list A :=
-    let m := length r in
-    map (fun j => divn (add (nth j r zero) (nth ((m - j) mod m) r zero)) 2) (seq 0 m).
-  Definition fourier_lr (IM : img) : img := map fourier_row IM.
-  (* the same along axis 0, on a rectangular image (IM.T ... .T) *)
-  Definition col (IM : img) (j : nat) : list A := map (fun r => nth j r zero) IM.
-  Definition transpose (m : nat) (IM : img) : img := map (col IM) (seq 0 m).
-  Definition fourier_ud (IM : img) : img :=
-    let n := length IM in let m := ncols IM in
-    transpose n (map fourier_row (transpose m IM)).
+  (* symmetry.py real_components(): dropping the imaginary Fourier components
+     taken relative to the image centre, ifft((fft(x) * phase).real / phase).real
+     with phase[k] = exp(i pi k (m-1)/m), is  g[j] = (f[j] + f[m-1-j]) / 2  along
+     the last axis (DFT shift identity; taken as a modelling fact, validated by
+     the correspondence check, not proved).  Along axis 0 the same on IM.T. *)
+  Definition fourier_lr (IM : img) : img := imdiv 2 (imadd IM (fliplr IM)).
+  Definition fourier_ud (IM : img) : img := imdiv 2 (imadd IM (flipud IM)).
 
   Definition quads := (img * img * img * img)%type.
 
@@ -107,6 +103,10 @@ Section Carrier.
                  let IMa := if ax_has 0 a then fourier_lr IM else IM in
                  if ax_has 1 a then fourier_ud IMa else IMa
                | _ => IM end in
+    (* "will use all 4 quadrants": use_quadrants is reset for the Fourier method *)
+    let u := match meth with
+             | Fourier => if Nat.ltb (mask_count u) 4 then mask_all else u
+             | _ => u end in
     let Q0 := immask (u0 u) (cols_last mc (rows_first nc IM1)) in
     let Q1 := immask (u1 u) (cols_first mc (rows_first nc IM1)) in
     let Q2 := immask (u2 u) (cols_first mc (rows_last nc IM1)) in
